@@ -150,16 +150,32 @@ func c13r1(c *Ctx) {
 			}
 		}
 	}
-	// map iteration that does not show up as ssa.Range (library helpers, reflection): not analysed, so not accepted
-	for g, site := range set.closure.Leaves {
-		id := g.String()
-		if o := g.Origin(); o != nil {
-			id = o.String()
-		}
-		switch id {
-		case "maps.Keys", "maps.Values", "maps.All", "golang.org/x/exp/maps.Keys", "golang.org/x/exp/maps.Values",
-			"(reflect.Value).MapKeys", "(reflect.Value).MapRange", "k8s.io/apimachinery/pkg/util/sets.KeySet":
-			c.Ob(site.Parent(), "map-iteration-helper:"+g.Name(), site, c.rule.Statement).Unknown("%s iterates a map in unspecified order; this form is not analysed by the lint — sort the result or range over the map directly", id)
+	// map iteration that does not show up as ssa.Range (library helpers, reflection): every reference
+	// is one site. Iterators that are sorted or collected into a slice are judged like the hand-written
+	// loop (sorted before use); every other form is not analysed, so not accepted
+	for _, fn := range set.closure.Order {
+		for _, b := range fn.Blocks {
+			for _, in := range b.Instrs {
+				for _, g := range referencedFuncs(in) {
+					id := g.String()
+					if o := g.Origin(); o != nil {
+						id = o.String()
+					}
+					if _, isHelper := mapIterHelpers[id]; !isHelper {
+						continue
+					}
+					notes, probs := p.classifyMapIterHelper(in, id)
+					o := c.Ob(fn, "map-iteration-helper:"+g.Name(), in, c.rule.Statement).Note(notes...)
+					switch {
+					case len(probs) == 0:
+						o.OK()
+					case probs[0].Unknown:
+						o.Unknown("%s", probs[0].Detail)
+					default:
+						o.Fail("%s", probs[0].Detail)
+					}
+				}
+			}
 		}
 	}
 	// admitted sprig functions that expose map order (frozen table; source-checked in the thorough tier)
